@@ -11,10 +11,17 @@ the decorators, constraints.with_penalty and constraints.as_penalty), walks the 
 (every edge at least once; a walk from freshly built closures = one behaviour) and after EVERY call
 compares every observable of every level with what the specification says.
 
+Three families of catalogues per tier (specs/pen/MC_Penalty.tla): the state graph proper (all types, nesting
+depth 1..3), the boundary values of every argument (conditions in halves and thirds, k = 0, h = 0, k and h below
+one, the types' defaults, conditions / multipliers scaled by 2^-1074 .. 2^996, store(x, 0)) and multi-digit
+iteration counters.  Every behaviour (freshly built closures) is written down in another concrete spelling of the
+same abstract inputs (harness/c15_spell.py: types of numbers, of x, of the condition's result, ways to pass
+arguments, adapters, call forms), rotating deterministically.
+
 Expected values come from TLC only; the harness merely turns the spec's exact values
-(n/d - sum log(a)/q, +-inf, nan) into floats.  Comparison: exactly (==) where no level at or below the
-observed one is a lagrange_inequality or barrier_inequality type; 1e-12 relative (to the largest
-magnitude among the stacked values) otherwise; error(x) against sqrt(spec error^2) at 1e-12 relative.
+((n/d - sum log(a)*p/q) * 2^e, +-inf, nan) into floats.  Comparison: exactly (==) where no level at or below the
+observed one is a lagrange_inequality or barrier_inequality type or has a condition in thirds; 1e-12 relative (to
+the largest magnitude among the stacked values) otherwise; error(x) against sqrt(spec error^2) at 1e-12 relative.
 
   bin/check C15 --tier quick|thorough [--seed N]   the catalogue is cut in parts; a pool of worker processes
                                                    runs TLC on a part and replays it; --seed changes the order
@@ -25,30 +32,41 @@ magnitude among the stacked values) otherwise; error(x) against sqrt(spec error^
 import sys, os, json, math, time, random, collections, warnings
 from harness.core import Check, tier_seed, assert_repo, main_guard
 from harness.tlc import run_tlc, TLCError
+from harness import c15_spell as spell
+from harness.c15_spell import Sp, build, apply_op, INF, ZD, NONE, PINF, INEXACT_TYPES
 
-INF, ZD, NONE = 1000000, 999999, -1
-PINF = float("inf")
 REL = 1e-12
 MAXSTEPS = 400          # calls per behaviour (then fresh closures are built)
 MAXVIOL_PER_CHAIN = 12
-INEXACT_TYPES = (5, 8)  # barrier_inequality (log), lagrange_inequality (division by 2k)
+SMALL_GRAPH = 40        # chains with at most this many spec states are walked ROUNDS times, each time in other spellings
+ROUNDS = 12
 
+# per tier: the families of catalogues (name, cfg, number of TLC processes, MaxN of the cfg)
 TIERS = {
-    "quick":    dict(cfg="MC_Penalty_quick.cfg",    nparts=16),
-    "thorough": dict(cfg="MC_Penalty_thorough.cfg", nparts=64),
+    "quick":    [dict(fam="main", cfg="MC_Penalty_quick.cfg",         nparts=16, maxn=2),
+                 dict(fam="bnd",  cfg="MC_Penalty_bnd_quick.cfg",     nparts=3,  maxn=2),
+                 dict(fam="long", cfg="MC_Penalty_long_quick.cfg",    nparts=1,  maxn=12)],
+    "thorough": [dict(fam="main", cfg="MC_Penalty_thorough.cfg",      nparts=64, maxn=3),
+                 dict(fam="bnd",  cfg="MC_Penalty_bnd_thorough.cfg",  nparts=12, maxn=3),
+                 dict(fam="long", cfg="MC_Penalty_long_thorough.cfg", nparts=3,  maxn=13)],
 }
 
 
 # ------------------------------------------------------------------------------------------------
 # TLC side: one part of the catalogue -> graphs per chain
-def tlc_part(tier, part, nparts=None):
-    t = TIERS[tier]
+def family(tier, fam):
+    return [t for t in TIERS[tier] if t["fam"] == fam][0]
+
+
+def tlc_part(tier, part, nparts=None, fam="main"):
+    t = family(tier, fam)
     nparts = nparts or t["nparts"]
     r = run_tlc("pen/MC_Penalty", cfg=t["cfg"], workers=1, timeout=3000, heap="3g",
                 env={"C15_NPARTS": nparts, "C15_PART": part, "_JAVA_OPTIONS": "-XX:CICompilerCount=2"})
     head = r.printed[0] if r.printed else None
     if not isinstance(head, dict) or "catalogue" not in head:
-        raise TLCError("no catalogue emitted by MC_Penalty part %d:\n%s" % (part, r.out[-2000:]))
+        raise TLCError("no catalogue emitted by MC_Penalty (%s) part %d:\n%s" % (t["cfg"], part, r.out[-2000:]))
+    head["fam"], head["maxn"] = fam, t["maxn"]
     if (head["inf"], head["zd"], head["none"]) != (INF, ZD, NONE) or head["nparts"] != nparts or head["part"] != part:
         raise TLCError("sentinels / partition of the spec and the harness disagree: %r" % {k: head[k] for k in ("inf", "zd", "none", "nparts", "part")})
     graphs = {}
@@ -67,78 +85,47 @@ def skey(n, ys):
 
 
 # ------------------------------------------------------------------------------------------------
-# implementation side: the real closures of a chain
-def make_cond(tab, use_kwds):
-    vals = [None if v == ZD else float(v) for v in tab]
-    if use_kwds:
-        def cond(x, table=None):
-            v = table[int(x[0]) - 1]
-            if v is None:
-                return 1.0 / 0
-            return v
-        return cond, {"table": vals}
-    def cond(x):
-        v = vals[int(x[0]) - 1]
-        if v is None:
-            return 1.0 / 0
-        return v
-    return cond, None
-
-
-def build(mp, mcons, head, chain):
-    """-> (F, how): F[l] the real penalised function of level l+1 (F[0] outermost)"""
-    types, ctabs, btabs = head["types"], head["cond"], head["base"]
-    btab = [float(v) for v in btabs[chain["b"] - 1]]
-    def base(x):
-        return btab[int(x[0]) - 1]
-    D = len(chain["lv"])
-    F, how = [None] * D, [None] * D
-    inner = base
-    for l in reversed(range(D)):
-        L = chain["lv"][l]
-        ptype = getattr(mp, types[L["ty"] - 1])
-        k = PINF if L["k"] == INF else L["k"]
-        tab = ctabs[L["c"] - 1]
-        innermost_zero = (l == D - 1) and not any(btab)
-        if innermost_zero and ZD not in tab and min(tab) >= 0:
-            # the adapter as_penalty: the condition is the norm of the displacement by a constraint
-            shift = [float(v) for v in tab]
-            def constraint(x, shift=shift):
-                return [x[0] + shift[int(x[0]) - 1]]
-            f = mcons.as_penalty(constraint, ptype, k=k, h=L["h"])
-            how[l] = "as_penalty"
-        elif innermost_zero:
-            cond, kw = make_cond(tab, False)
-            f = mcons.with_penalty(ptype, k=k, h=L["h"])(cond)
-            how[l] = "with_penalty"
-        else:
-            cond, kw = make_cond(tab, (l + D) % 2 == 0)
-            f = ptype(cond, kwds=kw, k=k, h=L["h"])(inner) if kw else ptype(cond, k=k, h=L["h"])(inner)
-            how[l] = "decorator" + ("+kwds" if kw else "")
-        F[l] = f
-        inner = f
-    return F, how
-
-
+# implementation side: the real closures of a chain are built by harness/c15_spell.build
 def val_float(vt):
-    """a spec value <<tcode, n, d, lg>> as (kind, float)"""
-    t, n, d, lg = vt
+    """a spec value <<tcode, n, d, lg, e>> as (kind, float)"""
+    t, n, d, lg, e = vt
     if t == 1:
         return 1, PINF
     if t == 2:
         return 2, -PINF
     if t == 3:
         return 3, float("nan")
+    if t != 0:
+        raise TLCError("the specification emitted a value that is not representable (sum of terms with different binary exponents): %r" % (vt,))
     v = n / d
-    for a, q in lg:
-        v -= math.log(a) / q
-    return 0, v
+    for a, p, q in lg:
+        v -= math.log(a) * p / q
+    return 0, math.ldexp(v, e)
+
+
+def err_float(vt):
+    """sqrt of a spec value error(x)^2"""
+    t, n, d, lg, e = vt
+    if t == 1:
+        return PINF
+    if t != 0 or lg or e % 2:
+        raise TLCError("unexpected error^2 value from the specification: %r" % (vt,))
+    return math.ldexp(math.sqrt(n / d), e // 2)
+
+
+def numstr(num, den, e):
+    if num == INF:
+        return "inf"
+    s = str(num) if den == 1 else "%d/%d" % (num, den)
+    return s + ("*2^%d" % e if e else "")
 
 
 def describe(head, chain):
+    se, ke = chain["se"], chain["ke"]
     return {"levels (outermost first)": [
-        {"ptype": head["types"][L["ty"] - 1], "k": "inf" if L["k"] == INF else L["k"], "h": L["h"],
-         "condition values at probes 1..4": ["ZeroDivisionError" if v == ZD else v for v in head["cond"][L["c"] - 1]]}
+        {"ptype": head["types"][L["ty"] - 1], "k": numstr(L["k"], L["kd"], ke), "h": numstr(L["h"], L["hd"], 0),
+         "condition values at probes 1..4": ["ZeroDivisionError" if v == ZD else numstr(v, head["den"][L["c"] - 1], se if v else 0)
+                                             for v in head["cond"][L["c"] - 1]]}
         for L in chain["lv"]], "base function values": head["base"][chain["b"] - 1]}
 
 
@@ -151,44 +138,40 @@ def opstr(e):
     return "F[%d].store(x%d%s)" % (j, x, "" if i == NONE else ", %d" % i)
 
 
-def apply_op(F, X, e):
-    o, j, x, i = e[0], e[1], e[2], e[3]
-    f = F[j - 1]
-    if o == "I":
-        return f.iter() if i == NONE else f.iter(i)
-    if o == "C":
-        return f.clear()
-    return f.store(X[x - 1]) if i == NONE else f.store(X[x - 1], i)
-
-
 class Expect(object):
     """what the spec says is observable in one state, turned into floats once"""
     __slots__ = ("levels",)
 
-    def __init__(self, obs, chain):
+    def __init__(self, obs, chain, head, floor=0.0):
         D = len(obs)
+        se, ke = chain["se"], chain["ke"]
+        scaled = bool(se or ke)
+        skip_err = abs(2 * se) > 1000            # the squares inside error() leave the float range
         lv = []
         for l in range(D):
             o = obs[l]
+            den = head["den"][chain["lv"][l]["c"] - 1]
             ev = [val_float(v) for v in o["ev"]]
-            lv.append([o["it"], [PINF if y == INF else float(y) for y in o["st"]],
-                       [PINF if y == INF else float(y) for y in o["sti"]], ev,
-                       [PINF if e == INF else math.sqrt(e) for e in o["er"]], None])
-        # comparison mode / scale of F[l](x): exact unless an inexact type sits at or below level l
+            st = [PINF if y == INF else spell.cond_value(y, den, se) for y in o["st"]]
+            lv.append([o["it"], st, None, ev,
+                       None if skip_err else [err_float(e) for e in o["er"]], None])
+        # comparison mode / scale of F[l](x): exact unless an inexact type (or a condition in thirds) sits at or below level l
         for l in range(D):
-            inexact = any(L["ty"] in INEXACT_TYPES for L in chain["lv"][l:])
+            inexact = any(L["ty"] in INEXACT_TYPES or not spell.is_pow2(head["den"][L["c"] - 1]) for L in chain["lv"][l:])
             tol = []
             for x in range(len(lv[l][3])):
                 if not inexact:
                     tol.append(0.0)
                 else:
-                    sc = 1.0
+                    sc = floor if scaled else 1.0
                     for m in range(l, D):
                         k, v = lv[m][3][x]
                         if k == 0 and abs(v) > sc:
                             sc = abs(v)
                     tol.append(REL * sc)
             lv[l][5] = tol
+            if lv[l][4] is not None:
+                lv[l][2] = [0.0 if e == PINF else REL * (e if scaled else max(1.0, e)) for e in lv[l][4]]
         self.levels = lv
 
 
@@ -201,37 +184,41 @@ def feas_class(head, chain, l, x):
     return "feasible" if (c == 0 if eq else c <= 0) else "violated"
 
 
-def compare(F, X, exp, head, chain, lastop):
-    """all observables of all levels against the spec; -> list of (key, info) mismatches"""
+def compare(b, exp, head, chain, lastop, q0):
+    """all observables of all levels against the spec; -> list of (key, info) mismatches.  q0 = number of calls made
+    so far: the spelling of every observation is a function of (q0, level, probe)"""
     bad = []
     types = head["types"]
-    for l, (it, st, sti, ev, er, tol) in enumerate(exp.levels):
-        f = F[l]
+    for l, (it, st, etol, ev, er, tol) in enumerate(exp.levels):
+        f = b.F[l]
         pt = types[chain["lv"][l]["ty"] - 1]
         nested = "" if lastop is None or lastop[1] - 1 == l else ("-nested" if lastop[1] - 1 < l else "-outer")
         after = "New" if lastop is None else {"I": "Iter", "C": "Clear", "S": "Store"}[lastop[0]]
+        q = q0 * 5 + l * 3
         try:
             g = f.iteration()
         except Exception as ex:
             g = "raised %r" % (ex,)
         if g != it or isinstance(g, bool):
-            bad.append(("iteration:%s:after-%s%s" % (pt, after, nested), {"level": l + 1, "observable": "F[%d].iteration()" % (l + 1), "obs": ["iteration", 0], "expected": it, "got": g}))
+            bad.append(("iteration:%s:after-%s%s" % (pt, after, nested), {"level": l + 1, "observable": "F[%d].iteration()" % (l + 1), "obs": ["iteration", 0], "q": q, "expected": it, "got": g}))
         try:
-            g = list(f.stored())
+            g = list(spell.get_stored(b, l, q))
         except Exception as ex:
             g = "raised %r" % (ex,)
         if g != st:
-            bad.append(("stored:%s:after-%s%s" % (pt, after, nested), {"level": l + 1, "observable": "F[%d].stored()" % (l + 1), "obs": ["stored", 0], "expected": st, "got": g}))
-        for i, e in enumerate(sti[:len(st)]):     # in-range indices only (what stored(i) does past the end is not C15's business)
+            bad.append(("stored:%s:after-%s%s" % (pt, after, nested), {"level": l + 1, "observable": "F[%d].stored()" % (l + 1), "obs": ["stored", 0], "q": q, "expected": st, "got": g}))
+        ns = len(st)
+        for i, e in enumerate(st):     # in-range indices only (what stored(i) does past the end is not C15's business)
             try:
-                g = f.stored(i)
+                g = spell.get_stored_i(b, l, i, ns, q + i)
             except Exception as ex:
                 g = "raised %r" % (ex,)
             if g != e:
-                bad.append(("stored(i):%s:after-%s%s" % (pt, after, nested), {"level": l + 1, "observable": "F[%d].stored(%d)" % (l + 1, i), "obs": ["stored_i", i], "expected": e, "got": g}))
+                bad.append(("stored(i):%s:after-%s%s" % (pt, after, nested), {"level": l + 1, "observable": "F[%d].stored(%d)" % (l + 1, i), "obs": ["stored_i", i], "q": q + i, "expected": e, "got": g}))
         for x, (kind, v) in enumerate(ev):
+            qx = q + x * 7
             try:
-                g = f(X[x])
+                g = spell.get_eval(b, l, x, qx)
                 if kind == 0:
                     ok = (g == v) if tol[x] == 0.0 else (abs(g - v) <= tol[x])
                 elif kind == 3:
@@ -242,34 +229,36 @@ def compare(F, X, exp, head, chain, lastop):
                 g, ok = "raised %r" % (ex,), False
             if not ok:
                 bad.append(("eval:%s:%s" % (pt, feas_class(head, chain, l, x)),
-                            {"level": l + 1, "observable": "F[%d](x%d)" % (l + 1, x + 1), "obs": ["eval", x], "expected": v, "got": g,
+                            {"level": l + 1, "observable": "F[%d](x%d)" % (l + 1, x + 1), "obs": ["eval", x], "q": qx, "expected": v, "got": g,
                              "tolerance": tol[x]}))
+            if er is None:
+                continue
             e = er[x]
             try:
-                g = f.error(X[x])
-                ok = (g == e) if e == PINF else (abs(g - e) <= REL * max(1.0, e))
+                g = spell.get_error(b, l, x, qx)
+                ok = (g == e) if e == PINF else (abs(g - e) <= etol[x])
             except Exception as ex:
                 g, ok = "raised %r" % (ex,), False
             if not ok:
                 bad.append(("error:%s:%s" % (pt, feas_class(head, chain, l, x)),
-                            {"level": l + 1, "observable": "F[%d].error(x%d)" % (l + 1, x + 1), "obs": ["error", x], "expected": e, "got": g,
-                             "tolerance": 0.0 if e == PINF else REL * max(1.0, e)}))
+                            {"level": l + 1, "observable": "F[%d].error(x%d)" % (l + 1, x + 1), "obs": ["error", x], "q": qx, "expected": e, "got": g,
+                             "tolerance": etol[x]}))
     return bad
 
 
-def observe(F, X, level, obs):
-    f = F[level - 1]
+def observe(b, level, obs, q, nstored=0):
+    l = level - 1
     kind, arg = obs
     if kind == "iteration":
-        return f.iteration()
+        return b.F[l].iteration()
     if kind == "stored":
-        return list(f.stored())
+        return list(spell.get_stored(b, l, q))
     if kind == "stored_i":
-        return f.stored(arg)
+        return spell.get_stored_i(b, l, arg, nstored, q)
     if kind == "eval":
-        return f(X[arg])
+        return spell.get_eval(b, l, arg, q)
     if kind == "error":
-        return f.error(X[arg])
+        return spell.get_error(b, l, arg, q)
     raise ValueError(kind)
 
 
@@ -278,24 +267,59 @@ def agrees(got, exp, tol):
         return got != got
     if isinstance(exp, (int, float)) and isinstance(got, (int, float)) and abs(exp) != PINF and tol:
         return abs(got - exp) <= tol
-    return got == exp
+    try:
+        return bool(got == exp)
+    except Exception:
+        return False
 
 
 def nontrivial_state(key):
     return any(key[0]) or any(key[1])
 
 
-def replay_chain(mp, mcons, head, cid, graph, stop_first=False, corrupt=False, want_sample=False, seed=0):
-    """walk every edge of the chain's state graph on the real closures"""
+def spelling_seed(head, cid, seed, trace):
+    """the integer that fixes the spelling of one behaviour: consecutive behaviours of a chain, neighbouring chains
+    and other seeds all land on different spellings"""
+    return {"main": 0, "bnd": 4, "long": 9}[head["fam"]] + cid * 13 + seed * 7919 + trace
+
+
+def replay_chain(mp, mcons, head, cid, graph, stop_first=False, corrupt=False, want_sample=False, seed=0, legacy=False):
+    """walk every edge of the chain's state graph on the real closures; small graphs several times (one walk of a
+    three-state graph is a single behaviour = a single spelling)"""
+    rounds = 1 if (legacy or corrupt or len(graph) > SMALL_GRAPH) else ROUNDS
+    ch = head["catalogue"][cid - 1]
+    tab = head["cond"][ch["lv"][-1]["c"] - 1]
+    if rounds > 1 and not any(head["base"][ch["b"] - 1]) and ZD not in tab and min(tab) >= 0:
+        rounds *= 5                     # the few chains that can be built by constraints.as_penalty: all its call forms
+    if rounds > 1 and any(L["k"] == INF for L in ch["lv"]):
+        rounds *= 4                     # the few chains with k = inf: inf as float / np.float64 / np.float32 / left out
+    res = None
+    for rd in range(rounds):
+        r = replay_chain_once(mp, mcons, head, cid, graph, stop_first, corrupt, want_sample, seed, legacy, rd * 1013)
+        if res is None:
+            res = r
+        else:
+            for k in ("steps", "traces", "nviol"):
+                res[k] += r[k]
+            res["violations"] += r["violations"]
+            res["spellings"].update(r["spellings"])
+            res["complete"] = res["complete"] and r["complete"]
+            res["states_visited"] = max(res["states_visited"], r["states_visited"])
+        if res["nviol"] and (stop_first or res["nviol"] >= MAXVIOL_PER_CHAIN):
+            break
+    return res
+
+
+def replay_chain_once(mp, mcons, head, cid, graph, stop_first, corrupt, want_sample, seed, legacy, sp_off):
     chain = head["catalogue"][cid - 1]
     D = len(chain["lv"])
-    NX = len(head["cond"][0])
-    X = [[float(x)] for x in range(1, NX + 1)]
     init = ((0,) * D, ((),) * D)
     if init not in graph:
         raise RuntimeError("initial state of chain %d not emitted" % cid)
-    res = {"cid": cid, "steps": 0, "edges": 0, "nontrivial_edges": 0, "traces": 0, "violations": [],
-           "states": len(graph), "states_visited": 0, "sample": None, "how": None, "nviol": 0}
+    lean = len(graph) > SMALL_GRAPH
+    res = {"cid": cid, "fam": head["fam"], "steps": 0, "edges": 0, "nontrivial_edges": 0, "traces": 0, "violations": [],
+           "states": len(graph), "states_visited": 0, "sample": None, "how": None, "nviol": 0,
+           "spellings": collections.Counter()}
     # successor lists and BFS tree from the initial state
     succ = {}
     for k, (obs, ss) in graph.items():
@@ -335,10 +359,29 @@ def replay_chain(mp, mcons, head, cid, graph, stop_first=False, corrupt=False, w
     expcache = {}
     visited = set()
 
+    # chains scaled by a power of two that contain an inexact type: the rounding residue of a clipped multiplier
+    # (beta + 2k*(-beta/2k), exactly 0 in the spec) is relative to the multiplier, not to the value observed; the
+    # tolerance floor is 1e-12 of the largest finite value the spec predicts anywhere in this chain's graph
+    floor = [None]
+
+    def chain_floor():
+        if floor[0] is None:
+            m = 0.0
+            if (chain["se"] or chain["ke"]) and any(L["ty"] in INEXACT_TYPES for L in chain["lv"]):
+                for obs, _ in graph.values():
+                    for o in obs:
+                        for v in o["ev"]:
+                            if v[0] == 0:
+                                a = abs(val_float(v)[1])
+                                if a > m:
+                                    m = a
+            floor[0] = m
+        return floor[0]
+
     def expect(k):
         e = expcache.get(k)
         if e is None:
-            e = expcache[k] = Expect(graph[k][0], chain)
+            e = expcache[k] = Expect(graph[k][0], chain, head, chain_floor())
         return e
 
     if corrupt:
@@ -348,7 +391,7 @@ def replay_chain(mp, mcons, head, cid, graph, stop_first=False, corrupt=False, w
             hit = [x for x, v in enumerate(obs[0]["ev"]) if v[0] == 0]
             if hit and any(k[0]):
                 v = obs[0]["ev"][hit[0]]
-                obs[0]["ev"][hit[0]] = [0, v[1] + v[2], v[2], v[3]]
+                obs[0]["ev"][hit[0]] = [0, v[1] + v[2], v[2], v[3], v[4]]
                 break
 
     def path_to(k):
@@ -360,7 +403,7 @@ def replay_chain(mp, mcons, head, cid, graph, stop_first=False, corrupt=False, w
         p.reverse()
         return p
 
-    def report(bad, script, cur, lastop, pre=None):
+    def report(bad, script, cur, lastop, spv, pre=None):
         for key, info in bad:
             res["nviol"] += 1
             if len(res["violations"]) < MAXVIOL_PER_CHAIN:
@@ -374,39 +417,53 @@ def replay_chain(mp, mcons, head, cid, graph, stop_first=False, corrupt=False, w
                     repro = False
                     for cand in cands:
                         try:
-                            F2, _ = build(mp, mcons, head, chain)
-                            for e in cand:
-                                apply_op(F2, X, e)
-                            hit = not agrees(observe(F2, X, info["level"], info["obs"]), info["expected"], info.get("tolerance", 0.0))
+                            b2 = build(mp, mcons, head, chain, Sp(spv, legacy, lean), head["maxn"])
+                            for qq, e in enumerate(cand):
+                                apply_op(b2, e, qq)
+                            hit = not agrees(observe(b2, info["level"], info["obs"], info["q"], len(cur[1][info["level"] - 1])),
+                                             info["expected"], info.get("tolerance", 0.0))
                         except Exception:
                             hit = True
                         if hit:
                             shortp, repro = cand, True
                             break
+                spx = Sp(spv, legacy, lean)
+                build(mp, mcons, head, chain, spx, head["maxn"])
                 info.update({"chain": describe(head, chain), "built_by": res["how"], "after_call": None if lastop is None else opstr(lastop),
+                             "spelling": spx.names, "spelling_of_observation": spell.obs_spelling(bcur[0], info["obs"][0], info["q"]) if "obs" in info else None,
                              "spec_state": {"n": list(cur[0]), "ys": [list(y) for y in cur[1]]},
                              "script": [list(e[:4]) for e in script], "script_text": [opstr(e) for e in script],
-                             "short_script": [opstr(e) for e in shortp], "short_script_reproduces": repro, "cid": cid,
-                             "replay": {"chain": chain, "head": {q: head[q] for q in ("types", "cond", "base")}}})
+                             "short_script": [opstr(e) for e in shortp], "short_script_reproduces": repro, "cid": cid, "family": head["fam"],
+                             "replay": {"chain": chain, "sp_v": spv, "legacy": legacy, "lean": lean, "nstored": len(cur[1][info["level"] - 1]),
+                                        "head": {q: head[q] for q in ("types", "cond", "den", "base", "maxn", "fam")}}})
                 after = (" ; ".join(opstr(e) for e in shortp) or "construction") if repro or not script else \
                     "the %d-call script of the artefact (last call %s)" % (len(script), opstr(script[-1]))
-                what = "%s built %s: after %s the spec says %s = %r, mystic gives %r" % (
-                    " > ".join(head["types"][L["ty"] - 1] + "(k=%s,h=%s)" % ("inf" if L["k"] == INF else L["k"], L["h"]) for L in chain["lv"]),
-                    "/".join(res["how"]), after, info["observable"], info["expected"], info["got"])
+                what = "%s built %s: after %s the spec says %s = %r, mystic gives %r%s" % (
+                    " > ".join(head["types"][L["ty"] - 1] + "(k=%s,h=%s)" % (numstr(L["k"], L["kd"], chain["ke"]), numstr(L["h"], L["hd"], 0)) for L in chain["lv"]),
+                    " / ".join(res["how"]), after, info["observable"], info["expected"], info["got"],
+                    "" if legacy or "obs" not in info or not info["spelling_of_observation"] else " (written as %s)" % info["spelling_of_observation"])
                 res["violations"].append((key, info, what))
 
+    bcur = [None]
     while remaining > 0 and res["nviol"] < MAXVIOL_PER_CHAIN and not (stop_first and res["nviol"]):
-        F, how = build(mp, mcons, head, chain)
+        spv = spelling_seed(head, cid, seed, res["traces"]) + sp_off
+        sp = Sp(spv, legacy, lean)
+        b = build(mp, mcons, head, chain, sp, head["maxn"])
+        bcur[0] = b
+        how = b.how
         res["how"] = how
         res["traces"] += 1
+        res["spellings"].update(sp.names)
         cur = init
         script = []
         sample = [] if (want_sample and res["sample"] is None) else None
-        bad = compare(F, X, expect(cur), head, chain, None)
+        bad = compare(b, expect(cur), head, chain, None, 0)
         visited.add(cur)
         if bad:
-            report(bad, script, cur, None)
-            break                      # wrong right after construction: every further step repeats it
+            report(bad, script, cur, None, spv)
+            if any(k.startswith(("iteration", "stored")) for k, _ in bad) or res["traces"] >= 12:
+                break                  # wrong right after construction in every spelling tried: every further step repeats it
+            continue                   # another behaviour = another spelling
         steps = 0
         desync = False
         route = collections.deque()
@@ -442,7 +499,7 @@ def replay_chain(mp, mcons, head, cid, graph, stop_first=False, corrupt=False, w
                     else:
                         e, nk = route.popleft()
             try:
-                ret = apply_op(F, X, e)
+                ret = apply_op(b, e, steps)
             except Exception as ex:
                 ret = ex
             script.append(e)
@@ -455,23 +512,32 @@ def replay_chain(mp, mcons, head, cid, graph, stop_first=False, corrupt=False, w
                     res["nontrivial_edges"] += 1
             pre, cur = cur, nk
             visited.add(cur)
-            bad = compare(F, X, expect(cur), head, chain, e)
+            bad = compare(b, expect(cur), head, chain, e, steps)
             if isinstance(ret, BaseException):
                 bad.insert(0, ("call:%s:raises" % {"I": "iter", "C": "clear", "S": "store"}[e[0]],
-                               {"level": e[1], "observable": opstr(e), "expected": "returns", "got": "raised %r" % (ret,)}))
+                               {"level": e[1], "observable": opstr(e), "expected": "returns",
+                                "got": "raised %r (written as %s)" % (ret, spell.op_spelling(b, e, steps - 1))}))
             if sample is not None and len(sample) < 6 and pre != cur:
                 o = graph[cur][0]
-                sample.append({"call": opstr(e), "spec_n": list(cur[0]), "spec_ys": [["inf" if y == INF else y for y in ys] for ys in cur[1]],
+                sample.append({"call": opstr(e), "written as": spell.op_spelling(b, e, steps - 1),
+                               "spec_n": list(cur[0]), "spec_ys (numerators)": [["inf" if y == INF else y for y in ys] for ys in cur[1]],
                                "spec F[1](x1..x4)": [val_float(v)[1] for v in o[0]["ev"]],
-                               "spec F[1].error(x1..x4)^2": ["inf" if v == INF else v for v in o[0]["er"]]})
+                               "spec F[1].error(x1..x4)^2 <<t,n,d,lg,e>>": o[0]["er"]})
             if bad:
-                report(bad, script, cur, e, pre)
-                if any(b[0].startswith(("iteration", "stored", "call")) for b in bad):
+                report(bad, script, cur, e, spv, pre)
+                if any(x[0].startswith(("iteration", "stored", "call")) for x in bad):
                     desync = True      # the real object left the spec's state: start a fresh behaviour
                 if stop_first:
                     break
+        mut = spell.mutated_inputs(b)
+        if mut:
+            kind, pno, x0, x1 = mut[0]
+            res["nviol"] += 1
+            res["violations"].append(("input:x-mutated", {"x spelling": kind, "probe": pno, "before": x0, "after": x1, "cid": cid, "family": head["fam"],
+                                                          "chain": describe(head, chain), "built_by": how, "script_text": [opstr(e) for e in script]},
+                                      "a call changed the caller's x (%s, probe x%d): %r -> %r" % (kind, pno, x0, x1)))
         if sample:
-            res["sample"] = {"chain": describe(head, chain), "built_by": how, "behaviour": sample}
+            res["sample"] = {"family": head["fam"], "chain": describe(head, chain), "built_by": how, "spelling": sp.names, "behaviour": sample}
     res["states_visited"] = len(visited)
     res["complete"] = remaining == 0
     return res
@@ -481,19 +547,20 @@ def replay_chain(mp, mcons, head, cid, graph, stop_first=False, corrupt=False, w
 _CTX = {}
 
 
-def work_part(part):
-    """one catalogue part: TLC (model check + emission) then replay of all its chains"""
+def work_part(job):
+    """one catalogue part of one family: TLC (model check + emission) then replay of all its chains"""
+    fam, part = job
     tier = _CTX["tier"]
     mp, mcons = _CTX["mp"], _CTX["mcons"]
     t0 = time.time()
-    head, graphs, mc = tlc_part(tier, part)
+    head, graphs, mc = tlc_part(tier, part, fam=fam)
     t1 = time.time()
     out = []
     for cid in sorted(graphs):
         lv = head["catalogue"][cid - 1]["lv"]
         out.append(replay_chain(mp, mcons, head, cid, graphs[cid], seed=_CTX["seed"],
-                                want_sample=len(lv) >= 2 and any(L["ty"] in (8, 9) for L in lv)))
-    return {"part": part, "mc": mc, "chains": out, "ncat": len(head["catalogue"]), "t_tlc": t1 - t0, "t_replay": time.time() - t1,
+                                want_sample=(len(lv) >= 2 or fam != "main") and any(L["ty"] in (8, 9) for L in lv)))
+    return {"fam": fam, "part": part, "mc": mc, "chains": out, "ncat": len(head["catalogue"]), "t_tlc": t1 - t0, "t_replay": time.time() - t1,
             "cat_digest": json.dumps(head["catalogue"], sort_keys=True)}
 
 
@@ -505,11 +572,14 @@ def quiet():
 
 def new_check(a):
     return Check("C15", "model_checking", a.tier, a.seed,
-                 rule="TLC enumerates, for every chain of the catalogue (nine penalty types x k,h x condition tables x nesting "
-                      "depth 1..3), every reachable state (iteration counters, stored multiplier lists) of pen/Penalty.tla and "
+                 rule="TLC enumerates, for every chain of three families of catalogues (main: nine penalty types x k,h x condition "
+                      "tables x nesting depth 1..3; bnd: boundary values of every argument -- conditions in halves/thirds, k=0, h=0, "
+                      "k,h<1, default k, scales 2^-1074..2^996, store(x,0); long: iteration counters up to 12/13), every reachable "
+                      "state (iteration counters, stored multiplier lists) of pen/Penalty.tla and "
                       "every enabled iter/clear/store call; the harness executes every such transition on the real mystic.penalty "
                       "closures and after each call compares iteration(), stored(), stored(i), F[j](x), F[j].error(x) for every "
-                      "level j and probe x with the spec. a case = one executed call followed by the full comparison; "
+                      "level j and probe x with the spec; every behaviour (fresh closures) and every call is written in another of "
+                      "the legal concrete spellings (harness/c15_spell.py). a case = one executed call followed by the full comparison; "
                       "distinct non-trivial = distinct (chain, pre-state, call) transitions whose pre- or post-state has a "
                       "non-zero iteration counter or a stored multiplier")
 
@@ -517,88 +587,116 @@ def new_check(a):
 def explore(ck, a):
     import multiprocessing
     tier = a.tier
-    nparts = TIERS[tier]["nparts"]
-    procs = max(1, min(a.jobs, os.cpu_count() or 1, 10, nparts))
+    fams = TIERS[tier]
+    # the heavy parts first: the long family's Lagrange chains, then the main family, the boundary family fills the gaps
+    jobs = [(t["fam"], i) for t in sorted(fams, key=lambda t: {"long": 0, "main": 1, "bnd": 2}[t["fam"]]) for i in range(t["nparts"])]
+    procs = max(1, min(a.jobs, os.cpu_count() or 1, 10, len(jobs)))
     ctx = multiprocessing.get_context("fork")
     results = []
     with ctx.Pool(procs) as pool:
-        for r in pool.imap_unordered(work_part, range(nparts)):
+        for r in pool.imap_unordered(work_part, jobs, chunksize=1):
             results.append(r)
-    results.sort(key=lambda r: r["part"])
-    digests = set(r["cat_digest"] for r in results)
-    if len(digests) != 1:
-        raise RuntimeError("the TLC runs disagree on the order of the chain catalogue")
-    ncat = results[0]["ncat"]
-    seen = collections.Counter(c["cid"] for r in results for c in r["chains"])
-    if sorted(seen) != list(range(1, ncat + 1)) or set(seen.values()) != {1}:
-        raise RuntimeError("catalogue not covered exactly once by the parts: %d chains, %d seen" % (ncat, len(seen)))
-    tot = {"distinct": 0, "generated": 0, "depth": 0, "wall_s": 0.0}
-    for r in results:
-        mc = r["mc"]
-        if mc["violated"]:
-            ck.violation("spec:" + mc["violated"], {"tlc": mc["out"], "part": r["part"]},
-                         "TLC: design invariant/property %s violated in pen/Penalty.tla" % mc["violated"])
-        tot["distinct"] += mc["distinct"] or 0
-        tot["generated"] += mc["generated"] or 0
-        tot["depth"] = max(tot["depth"], mc["depth"] or 0)
-        tot["wall_s"] += mc["wall_s"] or 0
-    ck.mc(tot, "pen/MC_Penalty (%s, %d parts)" % (TIERS[tier]["cfg"], nparts))
+    results.sort(key=lambda r: (r["fam"], r["part"]))
     complete = True
     samples = []
-    bydepth = collections.Counter()
+    nedges = 0
     states_visited = 0
-    for r in results:
-        for c in r["chains"]:
-            ck.case(nontrivial=True, n=c["nontrivial_edges"])
-            ck.case(nontrivial=False, n=c["steps"] - c["nontrivial_edges"])
-            ck.trace(c["traces"])
-            states_visited += c["states_visited"]
-            bydepth[c["cid"]] = c["edges"]
-            if c["sample"] is not None:
-                samples.append(c["sample"])
-            for key, info, what in c["violations"]:
-                ck.violation(key, info, what)
-            if c["nviol"] > len(c["violations"]):
-                ck.violations += c["nviol"] - len(c["violations"])
-            if not c["complete"]:
-                complete = False
-            elif c["states_visited"] != c["states"]:
-                raise RuntimeError("chain %d: all edges walked but only %d of %d states visited" % (c["cid"], c["states_visited"], c["states"]))
-    samples.sort(key=lambda s: (-len(s["built_by"]), json.dumps(s, sort_keys=True)))
-    for s in samples[:1] + samples[len(samples) // 2:len(samples) // 2 + 1] + samples[-1:]:
-        ck.sample(s, limit=3)
+    nchains = {}
+    spellings = collections.Counter()
+    perfam = {}
+    for t in fams:
+        fam = t["fam"]
+        rs = [r for r in results if r["fam"] == fam]
+        digests = set(r["cat_digest"] for r in rs)
+        if len(digests) != 1:
+            raise RuntimeError("the TLC runs disagree on the order of the chain catalogue (%s)" % fam)
+        ncat = rs[0]["ncat"]
+        seen = collections.Counter(c["cid"] for r in rs for c in r["chains"])
+        if sorted(seen) != list(range(1, ncat + 1)) or set(seen.values()) != {1}:
+            raise RuntimeError("catalogue %s not covered exactly once by the parts: %d chains, %d seen" % (fam, ncat, len(seen)))
+        nchains[fam] = ncat
+        tot = {"distinct": 0, "generated": 0, "depth": 0, "wall_s": 0.0}
+        for r in rs:
+            mc = r["mc"]
+            if mc["violated"]:
+                ck.violation("spec:" + mc["violated"], {"tlc": mc["out"], "family": fam, "part": r["part"]},
+                             "TLC: design invariant/property %s violated in pen/Penalty.tla (%s)" % (mc["violated"], t["cfg"]))
+            tot["distinct"] += mc["distinct"] or 0
+            tot["generated"] += mc["generated"] or 0
+            tot["depth"] = max(tot["depth"], mc["depth"] or 0)
+            tot["wall_s"] += mc["wall_s"] or 0
+        ck.mc(tot, "pen/MC_Penalty (%s, %d parts)" % (t["cfg"], t["nparts"]))
+        pf = perfam[fam] = {"chains": ncat, "spec_states": tot["distinct"], "calls_executed": 0, "behaviours": 0}
+        for r in rs:
+            for c in r["chains"]:
+                ck.case(nontrivial=True, n=c["nontrivial_edges"])
+                ck.case(nontrivial=False, n=c["steps"] - c["nontrivial_edges"])
+                ck.trace(c["traces"])
+                pf["calls_executed"] += c["steps"]
+                pf["behaviours"] += c["traces"]
+                states_visited += c["states_visited"]
+                nedges += c["edges"]
+                spellings.update(c["spellings"])
+                if c["sample"] is not None:
+                    samples.append(c["sample"])
+                for key, info, what in c["violations"]:
+                    ck.violation(key, info, what)
+                if c["nviol"] > len(c["violations"]):
+                    ck.violations += c["nviol"] - len(c["violations"])
+                if not c["complete"]:
+                    complete = False
+                elif c["states_visited"] != c["states"]:
+                    raise RuntimeError("chain %s/%d: all edges walked but only %d of %d states visited" % (fam, c["cid"], c["states_visited"], c["states"]))
+    samples.sort(key=lambda s: (s["family"] != "main", -len(s["built_by"]), json.dumps(s, sort_keys=True)))
+    fs = [s for s in samples if s["family"] == "main"]
+    for s in fs[:1] + fs[-1:] + [s for s in samples if s["family"] == "bnd"][:2] + [s for s in samples if s["family"] == "long"][:1]:
+        ck.sample(s, limit=5)
     ck.exhaustive = complete
-    ck.extra["chains"] = ncat
-    ck.extra["distinct_transitions_executed_on_impl"] = sum(bydepth.values())
+    ck.extra["chains"] = sum(nchains.values())
+    ck.extra["families"] = perfam
+    ck.extra["distinct_transitions_executed_on_impl"] = nedges
     ck.extra["spec_states_reached_on_impl"] = states_visited
+    ck.extra["behaviours_per_spelling"] = dict(sorted(spellings.items()))
+    ck.extra["spellings_per_call"] = {"x": list(spell.X_KINDS), "iter": list(spell.ITER_NONE + spell.ITER_I),
+                                      "store": list(spell.STORE_NONE + spell.STORE_I), "stored": list(spell.STORED_ALL + spell.STORED_I),
+                                      "evaluation": list(spell.EVALS), "error": ["error(x)", "error(x=x)"],
+                                      "rotation": "by the call counter: every form every 3..24 calls"}
+    ck.extra["job_seconds (family, part, tlc, replay)"] = [[r["fam"], r["part"], round(r["t_tlc"], 1), round(r["t_replay"], 1)] for r in results]
     ck.extra["t_tlc_cpu_s"] = round(sum(r["t_tlc"] for r in results), 1)
     ck.extra["t_replay_cpu_s"] = round(sum(r["t_replay"] for r in results), 1)
     ck.assumptions = [
-        "condition values are small integers (as floats), k,h integers (k=inf for the uniform defaults): float arithmetic of the "
-        "quadratic/linear/uniform/lagrange_equality types is exact and compared with ==",
-        "chains containing lagrange_inequality (division by 2k) or barrier_inequality (log) at or below the observed level are "
-        "compared at 1e-12 relative to the largest stacked magnitude; error(x) at 1e-12 relative to sqrt(spec error^2)",
+        "condition values are integers, halves (binary fractions) or thirds, optionally scaled by a power of two; k,h integers or "
+        "binary fractions (k=inf for the uniform defaults), k optionally scaled by a power of two: float arithmetic of the "
+        "quadratic/linear/uniform/lagrange_equality types is exact on them and compared with ==",
+        "chains containing lagrange_inequality (division by 2k), barrier_inequality (log) or a condition in thirds at or below the "
+        "observed level are compared at 1e-12 relative to the largest stacked magnitude; error(x) at 1e-12 relative to sqrt(spec error^2)",
         "barrier_inequality: the documented log barrier (-log(-f)/(2k h^n) inside, +inf on the boundary and outside) is the "
         "oracle, not 'zero on the feasible set'; Lagrange types with accumulated multipliers follow the documented accumulation",
+        "k = 0 and h = 0 only for the types that do not divide by k*h^n (barrier and lagrange_inequality raise ZeroDivisionError "
+        "there: outside the domain); 'strictly positive where violated' is premised on k*h^n > 0",
+        "conditions scaled to 2^-1074 / 2^996 only for the types of degree <= 1 in the condition, and error(x) is not compared "
+        "there (its square leaves the float range); scaled chains decorate the zero function or are of degree 0",
+        "spellings: only those Python accepts for the value at hand (int / np.int64 for integral values, float32 where every "
+        "intermediate stays exact in 24 bits, np.int64 counters unless k is a python int beyond 2^63)",
         "bounded instance: iteration counters, stored-list lengths, k,h, condition tables and nesting depth as in the MC_Penalty "
-        "catalogue; store() at a point where the condition divides by zero records an infinite multiplier (IEEE arithmetic follows)",
-        "trusted: TLC, the transcription of the docstring formulas into Penalty.tla, the float rendering n/d - sum log(a)/q of spec values",
+        "catalogues; store() at a point where the condition divides by zero records an infinite multiplier (IEEE arithmetic follows)",
+        "trusted: TLC, the transcription of the docstring formulas into Penalty.tla, the float rendering (n/d - sum log(a)p/q)*2^e of spec values",
     ]
 
 
 # ------------------------------------------------------------------------------------------------
-# self-test: in-memory mutants of mystic.penalty
-def mutate(mp, fname, subs):
+# self-test: in-memory mutants of mystic.penalty / mystic.constraints
+def mutate(mod, fname, subs):
     import inspect
-    f = getattr(mp, fname)
+    f = getattr(mod, fname)
     src = inspect.getsource(f)
     for old, new in subs:
         if old not in src:
             raise RuntimeError("mutant does not apply to %s: %r not found" % (fname, old))
         src = src.replace(old, new)
-    ns = dict(mp.__dict__)
+    ns = dict(mod.__dict__)
     exec(compile(src, "<mutant of %s>" % fname, "exec"), ns)
-    setattr(mp, fname, ns[fname])
+    setattr(mod, fname, ns[fname])
 
 
 PROP_CLEAR = "        if hasattr(_f[0], 'clear'): _f[0].clear()\n"
@@ -623,42 +721,76 @@ MUTANTS = [
     ("uniform_inequality: boundary point penalised (pf > 0 -> pf >= 0)", [("uniform_inequality", [("if pf > 0 else 0.0", "if pf >= 0 else 0.0")])]),
     ("quadratic_inequality: ZeroDivisionError -> 0 instead of inf", [("quadratic_inequality", [("                return inf\n            _k = k", "                return 0.0\n            _k = k")])]),
     ("barrier_inequality: 1/(2k) -> 1/k", [("barrier_inequality", [("-.5/_k*log(-pf)", "-1./_k*log(-pf)")])]),
+    ("lagrange_equality: store(x, 0) taken for store(x) (if not i)", [("lagrange_equality", [("        if i is None: i = iteration()\n", "        if not i: i = iteration()\n")])]),
     ("uniform_equality: clear() leaves the iteration counter", [("uniform_equality", [("    def clear():\n        _n[0] = 0\n", "    def clear():\n")])]),
 ]
+
+
+KW = "    if kwds is None: kwds={}\n"
+# mutants that only the boundary values / the rotating spellings can see (functions named "constraints.x" live in
+# mystic.constraints).  Each is also run against the enumeration as it was before (main family, one spelling).
+NEW_MUTANTS = [
+    ("quadratic_equality: k=0 taken for a missing k (k = k or 100)", [("quadratic_equality", [(KW, KW + "    k = k or 100\n")])]),
+    ("linear_inequality: h=0 taken for a missing h (h = h or 5)", [("linear_inequality", [(KW, KW + "    h = h or 5\n")])]),
+    ("linear_inequality: violation truncated to an integer (int-typed working value)", [("linear_inequality", [("abs(max(0., pf))", "abs(max(0, int(pf)))")])]),
+    ("lagrange_equality: stored multipliers truncated to integers", [("lagrange_equality", [("        l = len(_y)\n", "        if y != inf: y = int(y)\n        l = len(_y)\n")])]),
+    ("barrier_inequality: k truncated to an integer", [("barrier_inequality", [("_k = k * pow(h,_n[0])", "_k = int(k) * pow(h,_n[0])")])]),
+    ("uniform_inequality: violated only beyond a tolerance (pf > 1e-9)", [("uniform_inequality", [("if pf > 0 else 0.0", "if pf > 1e-9 else 0.0")])]),
+    ("quadratic_inequality: tiny violations flushed to zero (max(0, pf) below 1e-100)", [("quadratic_inequality", [("max(0., pf)**2 + f(", "(max(0., pf) if pf > 1e-100 else 0.)**2 + f(")])]),
+    ("quadratic_equality: extra arguments of F(x, ...) not passed on to the decorated function", [("quadratic_equality", [("pf**2 + f(x, *argz, **kwdz)", "pf**2 + f(x)")])]),
+    ("linear_equality: condition evaluated without its args", [("linear_equality", [("pf = condition(x, *args, **kwds)", "pf = condition(x, **kwds)")])]),
+    ("uniform_equality: error() evaluates the condition without its args", [("uniform_equality", [("rms = condition(x, *args, **kwds)**2", "rms = condition(x, **kwds)**2")])]),
+    ("quadratic_inequality: growth capped at the 9th iteration", [("quadratic_inequality", [("_k = k * pow(h,_n[0])", "_k = k * pow(h,min(_n[0], 9))")])]),
+    ("lagrange_inequality: default k 20 -> 10", [("lagrange_inequality", [("kwds=None, k=20, h=5):", "kwds=None, k=10, h=5):")])]),
+    ("linear_equality: default h 5 -> 2", [("linear_equality", [("kwds=None, k=100, h=5):", "kwds=None, k=100, h=2):")])]),
+    ("with_penalty: positional arguments dropped", [("constraints.with_penalty", [("@ptype(condition, *args, **kwds)", "@ptype(condition, **kwds)")])]),
+    ("as_penalty: only the first coordinate enters the norm", [("constraints.as_penalty", [("for i in range(len(x)):", "for i in range(1):")])]),
+    ("as_penalty: default ptype is linear_equality", [("constraints.as_penalty", [("from mystic.penalty import quadratic_equality\n        ptype = quadratic_equality", "from mystic.penalty import linear_equality\n        ptype = linear_equality")])]),
+    ("quadratic_equality: stored(i) refuses negative indices", [("quadratic_equality", [("        try: return _y[i]\n", "        if isinstance(i, int) and i < 0: return 0.0\n        try: return _y[i]\n")]),
+                                                               ("lagrange_equality", [("        try: return _y[i]\n", "        if isinstance(i, int) and i < 0: return 0.0\n        try: return _y[i]\n")])]),
+    ("uniform_equality: a DivisionByZero that is not exactly ZeroDivisionError escapes", [("uniform_equality", [("            except ZeroDivisionError:\n                return inf\n", "            except ZeroDivisionError as _e:\n                if type(_e) is not ZeroDivisionError: raise\n                return inf\n")])]),
+]
+LEGACY_MAX_STATES = 700       # the legacy comparison walks the main-family chains up to this size
 
 
 def selftest(a, mp, mcons):
     import concurrent.futures as cf
     tier = "quick"
-    nparts = 8
     t0 = time.time()
+    jobs = [("main", i, 8) for i in range(8)] + [("bnd", i, 4) for i in range(4)] + [("long", i, 2) for i in range(2)]
     with cf.ThreadPoolExecutor(8) as ex:
-        parts = list(ex.map(lambda i: tlc_part(tier, i, nparts), range(nparts)))
+        parts = list(ex.map(lambda j: tlc_part(tier, j[1], j[2], fam=j[0]), jobs))
     for head, graphs, mc in parts:
         if mc["violated"]:
             print("SELFTEST aborted: spec violated %s" % mc["violated"])
             return 2
-    head = parts[0][0]
+    heads = {}
     graphs = {}
-    for _, g, _ in parts:
-        graphs.update(g)
+    for head, g, _ in parts:
+        heads.setdefault(head["fam"], head)
+        for cid, gg in g.items():
+            graphs[(head["fam"], cid)] = gg
     print("selftest: %d chains, %d spec states from TLC in %.1fs" % (len(graphs), sum(len(g) for g in graphs.values()), time.time() - t0))
-    types = head["types"]
-    order = sorted(graphs, key=lambda c: len(graphs[c]))
+    types = heads["main"]["types"]
+    order = sorted(graphs, key=lambda c: (len(graphs[c]), c))
 
-    def run(filter_types=None, corrupt_cid=None):
+    def run(filter_types=None, corrupt=None, legacy=False):
         nv, keys = 0, collections.Counter()
-        for cid in order:
+        for fc in order:
+            fam, cid = fc
+            head = heads[fam]
             chain = head["catalogue"][cid - 1]
             if filter_types and not any(types[L["ty"] - 1] in filter_types for L in chain["lv"]):
                 continue
-            if corrupt_cid is not None and cid != corrupt_cid:
+            if corrupt is not None and fc != corrupt:
                 continue
-            g = graphs[cid]
-            if corrupt_cid is not None:
+            if legacy and (fam != "main" or len(graphs[fc]) > LEGACY_MAX_STATES):
+                continue
+            g = graphs[fc]
+            if corrupt is not None:
                 g = json.loads(json.dumps({"g": [[list(k[0]), [list(y) for y in k[1]], v[0], v[1]] for k, v in g.items()]}))["g"]
                 g = {skey(n, ys): (obs, ss) for n, ys, obs, ss in g}
-            r = replay_chain(mp, mcons, head, cid, g, stop_first=True, corrupt=corrupt_cid is not None)
+            r = replay_chain(mp, mcons, head, cid, g, stop_first=True, corrupt=corrupt is not None, legacy=legacy)
             for key, info, what in r["violations"]:
                 keys[key] += 1
             nv += r["nviol"]
@@ -667,51 +799,93 @@ def selftest(a, mp, mcons):
         return nv, keys
 
     missed = 0
-    # sanity: the unchanged tree is quiet on what the mutants are judged on
     orig = {f: getattr(mp, f) for f in types}
-    for name, edits in MUTANTS:
-        t1 = time.time()
+    orig_c = {f: getattr(mcons, f) for f in ("with_penalty", "as_penalty")}
+
+    def apply(edits):
+        filt = set()
         for fname, subs in edits:
-            mutate(mp, fname, subs)
-        try:
-            nv, keys = run(filter_types=set(f for f, _ in edits))
-        except Exception as ex:
-            nv, keys = 1, {"raised:%r" % (ex,): 1}
+            if fname.startswith("constraints."):
+                mutate(mcons, fname.split(".", 1)[1], subs)
+            else:
+                mutate(mp, fname, subs)
+                filt.add(fname)
+        return filt or None
+
+    def restore():
         for f, v in orig.items():
             setattr(mp, f, v)
+        for f, v in orig_c.items():
+            setattr(mcons, f, v)
+
+    def judge(edits, legacy=False):
+        filt = apply(edits)
+        try:
+            nv, keys = run(filter_types=filt, legacy=legacy)
+        except Exception as ex:
+            nv, keys = 1, {"raised:%r" % (ex,): 1}
+        finally:
+            restore()
+        return nv, keys
+
+    for name, edits in MUTANTS:
+        t1 = time.time()
+        nv, keys = judge(edits)
         print("SELFTEST %s: %s (%s) %.1fs" % (name, "caught" if nv else "MISSED", ", ".join(sorted(keys)) or "-", time.time() - t1))
+        sys.stdout.flush()
         missed += 0 if nv else 1
-    lag = [c for c in order if any(L["ty"] == 9 for L in head["catalogue"][c - 1]["lv"])][0]
-    nv, keys = run(corrupt_cid=lag)
-    print("SELFTEST corrupted expected value from TLC (chain %d): %s (%s)" % (lag, "caught" if nv else "MISSED", ", ".join(sorted(keys)) or "-"))
+    for name, edits in NEW_MUTANTS:
+        t1 = time.time()
+        nv, keys = judge(edits)
+        nl, _ = judge(edits, legacy=True)
+        print("SELFTEST %s: %s (%s) [enumeration before the spelling rotation / boundary catalogues: %s] %.1fs" % (
+            name, "caught" if nv else "MISSED", ", ".join(sorted(keys)[:4]) or "-", "caught too" if nl else "missed", time.time() - t1))
+        sys.stdout.flush()
+        missed += 0 if nv else 1
+    lag = [c for c in order if c[0] == "main" and any(L["ty"] == 9 for L in heads["main"]["catalogue"][c[1] - 1]["lv"])][0]
+    nv, keys = run(corrupt=lag)
+    print("SELFTEST corrupted expected value from TLC (chain %s/%d): %s (%s)" % (lag[0], lag[1], "caught" if nv else "MISSED", ", ".join(sorted(keys)) or "-"))
     missed += 0 if nv else 1
+    # a value of the boundary family (scaled by a power of two): corrupt its binary exponent
+    sc = [c for c in order if c[0] == "bnd" and heads["bnd"]["catalogue"][c[1] - 1]["se"] == -40 and heads["bnd"]["catalogue"][c[1] - 1]["lv"][0]["ty"] == 1][0]
+    g = json.loads(json.dumps({"g": [[list(k[0]), [list(y) for y in k[1]], v[0], v[1]] for k, v in graphs[sc].items()]}))["g"]
+    g = {skey(n, ys): (obs, ss) for n, ys, obs, ss in g}
+    done = False
+    for k, (obs, ss) in g.items():
+        for v in obs[0]["ev"]:
+            if v[0] == 0 and v[1] != 0 and not done:
+                v[4] += 1
+                done = True
+    r = replay_chain(mp, mcons, heads["bnd"], sc[1], g, stop_first=True)
+    print("SELFTEST corrupted binary exponent of a TLC value (chain %s/%d): %s (%s)" % (sc[0], sc[1], "caught" if r["nviol"] else "MISSED",
+                                                                                      ", ".join(sorted(k for k, _, _ in r["violations"])) or "-"))
+    missed += 0 if r["nviol"] else 1
     return 1 if missed else 0
 
 
 # ------------------------------------------------------------------------------------------------
 def replay_artefact(path, mp, mcons):
-    """re-run the script of a violation artefact on the current tree"""
+    """re-run the script of a violation artefact on the current tree (same spelling)"""
     d = json.load(open(path))["detail"]
     if "obs" not in d or "replay" not in d:
         print("artefact %s carries no replayable observation (spec-level violation?)" % path)
         return 2
-    head = dict(d["replay"]["head"])
-    chain = d["replay"]["chain"]
-    NX = len(head["cond"][0])
-    X = [[float(x)] for x in range(1, NX + 1)]
-    F, how = build(mp, mcons, head, chain)
-    for e in d["script"]:
-        apply_op(F, X, e)
+    rp = d["replay"]
+    head = dict(rp["head"])
+    chain = rp["chain"]
+    b = build(mp, mcons, head, chain, Sp(rp["sp_v"], rp.get("legacy", False), rp.get("lean", False)), head["maxn"])
+    for qq, e in enumerate(d["script"]):
+        apply_op(b, e, qq)
     exp = d["expected"]
     conv = lambda v: float(v) if isinstance(v, str) else v
     exp = [conv(v) for v in exp] if isinstance(exp, list) else conv(exp)
     try:
-        got = observe(F, X, d["level"], d["obs"])
+        got = observe(b, d["level"], d["obs"], d["q"], rp.get("nstored", 0))
     except Exception as ex:
         got = "raised %r" % (ex,)
     ok = agrees(got, exp, d.get("tolerance") or 0.0)
-    print("replay %s: %s after %s\n  spec expected %r, mystic now gives %r -> %s" % (
-        path, d["observable"], " ; ".join(d["script_text"]) or "construction", exp, got, "agrees" if ok else "STILL DISAGREES"))
+    print("replay %s: %s after %s\n  built %s\n  spec expected %r, mystic now gives %r -> %s" % (
+        path, d["observable"], " ; ".join(d["script_text"]) or "construction", " / ".join(b.how), exp, got, "agrees" if ok else "STILL DISAGREES"))
     if not ok:
         print("VIOLATION property=C15 replay=%s" % path)
     return 0 if ok else 1
